@@ -26,7 +26,7 @@ Tag(text, key, value, boolean) == [text |-> text, tag |-> [key |-> key, value |-
 
 -----------------------------------------------------------------------------
 (* definition variants; n makes the names unique *)
-NVariants == 15
+NVariants == 18
 DV(k, n) ==
   CASE k = 1 -> [k |-> "struct", name |-> Nm("Sa", n), ro |-> FALSE, op |-> "", opval |-> NoOp, doc |-> NoDoc, asp |-> "post",
                  fields |-> << PlainF("a", P("int32"), 0), PlainF("b", A(P("string")), 0) >>]
@@ -71,6 +71,15 @@ DV(k, n) ==
                   fields |-> << PlainF("q", P("uint64"), 0) >>]
     [] k = 15 -> [k |-> "import", path |-> "dir\\sub" \o ToString(n) \o ".bop",          \* the path contains ONE backslash ...
                   lit |-> "\"dir\\\\sub" \o ToString(n) \o ".bop\""]                     \* ... written as an escape in the literal
+    [] k = 16 -> [k |-> "struct", name |-> Nm("Se", n), ro |-> FALSE, op |-> "0x21", opval |-> <<33, 0, 0, 0>>,
+                  doc |-> LineDoc(" the doc below the opcode"), asp |-> "post", attrfirst |-> TRUE,
+                  fields |-> << PlainF("r", P("int32"), 0) >>]
+    [] k = 17 -> [k |-> "enum", name |-> Nm("Ee", n), base |-> "", flags |-> TRUE, doc |-> BlockDoc(" flags first, then this "), attrfirst |-> TRUE,
+                  members |-> << [name |-> "A", lit |-> <<"1">>, val |-> <<1, 0, 0, 0>>, dep |-> "", doc |-> NoDoc],
+                                 [name |-> "B", lit |-> <<"2">>, val |-> <<2, 0, 0, 0>>, dep |-> "", doc |-> NoDoc] >>]
+    [] k = 18 -> [k |-> "message", name |-> Nm("Mc", n), op |-> "\"WXYZ\"", opval |-> <<87, 88, 89, 90>>,
+                  doc |-> LineDoc(" one") \o LineDoc(" two"), asp |-> "post", attrfirst |-> TRUE,
+                  fields |-> << PlainF("s", P("string"), 1) >>]
 
 MaxSeq == IF Tier = "thorough" THEN 3 ELSE 2
 RECURSIVE Pow(_, _)
@@ -86,18 +95,20 @@ SeqItems(i) == LET ks == SeqOfIndex(NVariants, i - 1, 1) IN [j \in 1..Len(ks) |-
 
 -----------------------------------------------------------------------------
 (* field variants inside each kind of container *)
-NFieldVariants == 9
+NFieldVariants == 11
 FV(k, j, idx) ==   \* j-th field of the container; idx used by messages
   LET nm == Nm("f", j) IN
   CASE k = 1 -> PlainF(nm, P("int32"), idx)
     [] k = 2 -> Fd(nm, P("string"), idx, "use g", NoDoc, <<>>, "")
     [] k = 3 -> Fd(nm, P("uint8"), idx, "", LineDoc(" one line"), <<>>, "")
     [] k = 4 -> Fd(nm, A(P("int64")), idx, "", BlockDoc(" block "), <<>>, "")
-    [] k = 5 -> Fd(nm, P("bool"), idx, "", NoDoc, << Tag("json:\"x,omitempty\"", "json", "x,omitempty", FALSE), Tag("flag", "flag", "", TRUE) >>, "")
+    [] k = 5 -> Fd(nm, P("bool"), idx, "", NoDoc, << Tag("json:\"" \o nm \o ",omitempty\"", "json", nm \o ",omitempty", FALSE), Tag("flag" \o nm, "flag" \o nm, "", TRUE) >>, "")
     [] k = 6 -> Fd(nm, P("guid"), idx, "", NoDoc, <<>>, " trailing remark")
     [] k = 7 -> Fd(nm, M("uint32", P("date")), idx, "both", LineDoc(" line one") \o LineDoc(" line two"), <<>>, "")
     [] k = 8 -> Fd(nm, P("float64"), idx, "", BlockDoc(" first paragraph\n\n   second paragraph after an empty line\n "), <<>>, "")
     [] k = 9 -> PlainF(nm, P("int16"), idx) @@ ("idxlit" :> ("0" \o ToString(idx)))   \* message indices are decimal: 010 is ten
+    [] k = 10 -> Fd(nm, P("uint16"), idx, "first the attribute", LineDoc(" then the doc"), <<>>, "") @@ ("attrfirst" :> TRUE)
+    [] k = 11 -> Fd(nm, P("string"), idx, "above a tag", NoDoc, << Tag("db:\"" \o nm \o "\"", "db", nm, FALSE) >>, "") @@ ("attrfirst" :> TRUE)
 
 MaxItems == IF Tier = "thorough" THEN 3 ELSE 2
 NItemSeqs == NSeqs(NFieldVariants, MaxItems)
@@ -106,7 +117,7 @@ Containers == <<"struct", "message", "union", "enum">>
 EnumMember(k, j) ==
   LET f == FV(k, j, j) IN
   [name |-> Nm("O", j), lit |-> <<(IF k = 9 THEN "0" ELSE "") \o ToString(j)>>, val |-> <<j, 0, 0, 0>>, dep |-> f.dep,
-   doc |-> f.doc]
+   doc |-> f.doc, attrfirst |-> AttrFirst(f)]
 
 ItemsCase(i) ==   \* i in 1..4*NItemSeqs
   LET c == Containers[((i - 1) \div NItemSeqs) + 1]
@@ -118,7 +129,7 @@ ItemsCase(i) ==   \* i in 1..4*NItemSeqs
        [] c = "union" -> << [k |-> "union", name |-> "Box", op |-> "", opval |-> NoOp, doc |-> NoDoc,
                               branches |-> [j \in 1..Len(ks) |->
                                  LET f == FV(ks[j], j, 1) IN
-                                 [idx |-> j, dep |-> f.dep, doc |-> f.doc,
+                                 [idx |-> j, dep |-> f.dep, doc |-> f.doc, attrfirst |-> AttrFirst(f),
                                   def |-> IF j % 2 = 1
                                           THEN [k |-> "struct", name |-> Nm("Br", j), ro |-> FALSE, op |-> "", opval |-> NoOp, doc |-> NoDoc,
                                                 asp |-> "post", fields |-> << [f EXCEPT !.dep = "", !.doc = NoDoc, !.idx = 0] >>]
@@ -159,7 +170,7 @@ Items == CASE part = "seq" -> SeqItems(ci)
            [] part = "types" -> TypesCase(ci)
            [] part = "trailer" -> TrailerItems(ci)
 \* the text: the items, then (trailer part) comments that belong to nothing
-Text == IF part = "trailer" THEN SubSeq(Tokens(Items), 1, Len(Tokens(Items)) - 1) \o TrailerOf(ci) ELSE Tokens(Items)
+Text == IF part = "trailer" THEN Tokens(Items) \o TrailerOf(ci) ELSE Tokens(Items)
 
 Init == part = "" /\ ci = 0
 Next == \/ part = "" /\ part' \in {"seq", "items", "types", "trailer"} /\ UNCHANGED ci
